@@ -474,7 +474,7 @@ fn main() {
 
     // shards: basic-path DAGs, real bytes obtained after random id burns; the model is evaluated with
     // three different id streams and must reproduce the real bytes each time
-    let ncases = if thorough { 1500 } else { 420 };
+    let ncases = if thorough { 1500 } else { 340 };
     let mut seen = std::collections::HashSet::new();
     let mut base_guess: u64 = 1;
     for k in 0..ncases {
